@@ -293,6 +293,14 @@ Record wf (m : mgr) : Prop := {
   wf_cache   : cache_ok m
 }.
 
+(* The three places where the cache invariant has to be re-established; when [cache_ok] becomes a
+   real invariant (C03) only these lemmas (and their uses in grow_wf / new_mgr_wf / wf_set_cache)
+   need new proofs. *)
+Lemma cache_ok_initial : cache_ok new_mgr.
+Proof. exact I. Qed.
+Lemma cache_ok_same_cache m m' : cache m' = cache m -> ext m m' -> cache_ok m -> cache_ok m'.
+Proof. intros _ _ _. exact I. Qed.
+
 (* ---- key_eqb reflects equality ---- *)
 Lemma nlist_eqb_eq l1 l2 : nlist_eqb l1 l2 = true <-> l1 = l2.
 Proof.
@@ -556,7 +564,7 @@ Proof.
   - destruct (wf_consts m W) as [C1 C2 C3 C4 C5 O1 O2 O3 O4 O5].
     constructor; cbn [grow m_sigma m_empty m_full m_eps m_splus]; auto;
       eapply ext_owned; eauto.
-  - exact I.
+  - exact (cache_ok_same_cache m (grow m k) eq_refl Hext (wf_cache m W)).
 Qed.
 
 Theorem make_wf m k m' t :
@@ -589,10 +597,11 @@ Proof.
   intros W Hk Hc Hok Hmk w. apply L_rnode. eapply make_wf; eauto.
 Qed.
 
-(* the cache is irrelevant to the constructor layer *)
-Lemma wf_set_cache m c : wf m -> wf (set_cache m c).
+(* the cache is irrelevant to the constructor layer: replacing it keeps every other field of wf
+   (with a real cache invariant the premise [cache_ok (set_cache m c)] becomes an obligation) *)
+Lemma wf_set_cache m c : wf m -> cache_ok (set_cache m c) -> wf (set_cache m c).
 Proof.
-  intros [H1 H2 H3 H4 H5 H6 H7 H8 [C1 C2 C3 C4 C5 O1 O2 O3 O4 O5] H10].
+  intros [H1 H2 H3 H4 H5 H6 H7 H8 [C1 C2 C3 C4 C5 O1 O2 O3 O4 O5] H10] Hc.
   constructor; auto. constructor; auto.
 Qed.
 Lemma make_cache m k m' t : make m k = Some (m', t) -> not_compl k -> cache m' = cache m.
@@ -734,7 +743,7 @@ Proof.
     + split; [congruence|]. intros w Hg. unfold splus0, eps0, mk_node.
       rewrite (L_plus_sigma _ _ _ sigma0 w Hsig). cbn. tauto.
   - constructor; try (vm_compute; reflexivity); apply Hown; vm_compute; auto 10.
-  - exact I.
+  - exact cache_ok_initial.
 Qed.
 
 (* ------------------------------------------------------------------------------------------ *)
